@@ -86,10 +86,13 @@ def main():
     import pandas as pd
     before = dict(T)
     db = bd.Database('d', pd.DataFrame({'x': [1.0, 2.0, 3.0]}))
-    db.generate_draws({'a': 'UNIFORM', 'b': 'NORMAL'}, ['a', 'b'], 4)
     cases += 1
-    if dict(T) != before or list(T) != list(before):
-        failures.append({'check': 'NT-unchanged-by-generate_draws', 'case': ''})
+    try:
+        db.generate_draws({'a': 'UNIFORM', 'b': 'NORMAL'}, ['a', 'b'], 4)
+        if dict(T) != before or list(T) != list(before):
+            failures.append({'check': 'NT-unchanged-by-generate_draws', 'case': ''})
+    except Exception as e:          # a defect of generate_draws itself (reported by its own obligations), not of the model
+        failures.append({'check': 'NT-unchanged-by-generate_draws', 'case': f'generate_draws raised {type(e).__name__}: {e}'[:200]})
     print(json.dumps({'cases': cases, 'failures': failures,
                       'bound': f'{len(shapes2)} 2-d shapes x n in (1,2,3,5) stacked arrays; list repetition n in -2..7; 21 native entries'}))
     return 1 if failures else 0
